@@ -5,6 +5,7 @@ package c16
 
 import (
 	"encoding/binary"
+	"encoding/hex"
 	"errors"
 	"fmt"
 	"io"
@@ -83,6 +84,59 @@ func measuredPanicWithin(limit time.Duration, f func()) (pv interface{}, alloc u
 	}
 }
 
+// stackErrCost: what building one immudb pkg/errors value costs the allocator: debug.Stack tries
+// buffers of 1, 2, 4, .. KiB until the trace fits, the trace is then copied into a string (size
+// classes round it up by at most an eighth), plus the error struct
+func stackErrCost(err error) uint64 { return stackErrCostMargin(err, 0) }
+
+// margin: extra trace bytes assumed (goroutine ids and argument words make traces of the same call
+// path differ by a few bytes, which matters next to a buffer-doubling boundary)
+func stackErrCostMargin(err error, margin int) uint64 {
+	se, ok := err.(interface{ Stack() string })
+	if !ok || err == nil {
+		return 0
+	}
+	n := len(se.Stack()) + margin
+	tot, buf := 0, 1024
+	for {
+		tot += buf
+		if n < buf {
+			break
+		}
+		buf *= 2
+	}
+	return uint64(tot + n + n/8 + 64)
+}
+
+// errUnit: the cost of such an error built where the receivers build theirs and drop them (below
+// Next -> ReadValue -> msgReceiver.Read), measured once on a key-value receiver
+var errUnitCache uint64
+
+func errUnit() uint64 {
+	if errUnitCache == 0 {
+		func() {
+			defer func() { recover() }()
+			done := make(chan error, 1)
+			go func() { // same goroutine shape as measuredPanicWithin
+				var err error
+				func() {
+					func() {
+						defer func() { recover() }()
+						kvr := stream.NewKvStreamReceiver(stream.NewMsgReceiver(newChunkStream([][]byte{u64b(1 << 63)}, true)), 8)
+						_, _, err = kvr.Next()
+					}()
+				}()
+				done <- err
+			}()
+			errUnitCache = stackErrCostMargin(<-done, 128)
+		}()
+		if errUnitCache == 0 {
+			errUnitCache = 1 // code without the length check builds no such error
+		}
+	}
+	return errUnitCache
+}
+
 const (
 	stRead = iota
 	stKv
@@ -129,13 +183,17 @@ func caseStream(r *vk.Run, kind int, chunks [][]byte, finalEOF bool, bs, cap int
 	}
 	cs := newChunkStream(chunks, finalEOF)
 	var items [][][]byte
+	var errBytes uint64 // cost of the stack-capturing error values this loop received
 	pv, alloc, ret := measuredPanic(func() {
+		var err error
+		defer func() { errBytes += stackErrCost(err) }()
 		mr := stream.NewMsgReceiver(cs)
 		switch kind {
 		case stRead:
 			buf := make([]byte, bs)
 			for k := 0; k < cap; k++ {
-				n, err := mr.Read(buf)
+				var n int
+				n, err = mr.Read(buf)
 				if err != nil {
 					return
 				}
@@ -144,11 +202,14 @@ func caseStream(r *vk.Run, kind int, chunks [][]byte, finalEOF bool, bs, cap int
 		case stKv:
 			kvr := stream.NewKvStreamReceiver(mr, bs)
 			for k := 0; k < cap; k++ {
-				key, vr, err := kvr.Next()
+				var key []byte
+				var vr io.Reader
+				key, vr, err = kvr.Next()
 				if err != nil {
 					return
 				}
-				val, err := stream.ReadValue(vr, bs)
+				var val []byte
+				val, err = stream.ReadValue(vr, bs)
 				if err != nil {
 					return
 				}
@@ -157,11 +218,16 @@ func caseStream(r *vk.Run, kind int, chunks [][]byte, finalEOF bool, bs, cap int
 		case stZ:
 			zr := stream.NewZStreamReceiver(mr, bs)
 			for k := 0; k < cap; k++ {
-				set, key, score, atTx, vr, err := zr.Next()
+				var set, key []byte
+				var score float64
+				var atTx uint64
+				var vr io.Reader
+				set, key, score, atTx, vr, err = zr.Next()
 				if err != nil {
 					return
 				}
-				ze, err := stream.ParseZEntry(set, key, score, atTx, vr, bs)
+				var ze *schema.ZEntry
+				ze, err = stream.ParseZEntry(set, key, score, atTx, vr, bs)
 				if err != nil {
 					return
 				}
@@ -170,12 +236,15 @@ func caseStream(r *vk.Run, kind int, chunks [][]byte, finalEOF bool, bs, cap int
 		case stVEntry:
 			ver := stream.NewVEntryStreamReceiver(mr, bs)
 			for k := 0; k < cap; k++ {
-				a, b, c, vr, err := ver.Next()
+				var a, b, c []byte
+				var vr io.Reader
+				a, b, c, vr, err = ver.Next()
 				if err != nil {
 					return
 				}
 				// ParseVerifiableEntry = three proto.Unmarshal calls (not modelled) and this ReadValue
-				val, err := stream.ReadValue(vr, bs)
+				var val []byte
+				val, err = stream.ReadValue(vr, bs)
 				if err != nil {
 					return
 				}
@@ -184,10 +253,13 @@ func caseStream(r *vk.Run, kind int, chunks [][]byte, finalEOF bool, bs, cap int
 		case stExecAll:
 			ear := stream.NewExecAllStreamReceiver(mr, bs)
 			for k := 0; k < cap; k++ {
-				op, err := ear.Next()
+				var op stream.IsOp_Operation
+				op, err = ear.Next()
 				if err != nil {
 					if strings.Contains(err.Error(), stream.ErrUnableToReassembleExecAllMessage) {
 						items = append(items, [][]byte{{2}}) // a ZAdd operation whose protobuf body did not parse
+						errBytes += stackErrCost(err)
+						err = nil
 						continue
 					}
 					return
@@ -195,7 +267,8 @@ func caseStream(r *vk.Run, kind int, chunks [][]byte, finalEOF bool, bs, cap int
 				switch x := op.(type) {
 				case *stream.Op_KeyValue:
 					key, _ := io.ReadAll(x.KeyValue.Key.Content)
-					val, err := stream.ReadValue(x.KeyValue.Value.Content, bs)
+					var val []byte
+					val, err = stream.ReadValue(x.KeyValue.Value.Content, bs)
 					if err != nil {
 						return
 					}
@@ -229,7 +302,7 @@ func caseStream(r *vk.Run, kind int, chunks [][]byte, finalEOF bool, bs, cap int
 		}
 		its[i] = vk.List(fs)
 	}
-	r.Case(fmt.Sprintf("CStream %d %s %s %d %d %s %s %d", kind, chunksTerm(chunks), vk.Bool(finalEOF), bs, cap, vk.List(its), vk.Bool(pv != nil), alloc),
+	r.Case(fmt.Sprintf("CStream %d %s %s %d %d %s %s %d %d %d", kind, chunksTerm(chunks), vk.Bool(finalEOF), bs, cap, vk.List(its), vk.Bool(pv != nil), alloc, errBytes, errUnit()),
 		map[string]any{"kind": "stream", "what": name, "chunks": chunksHex(chunks), "final": finalEOF, "bs": bs, "cap": cap,
 			"panic": pv != nil, "items": len(items), "alloc": alloc},
 		"stream/"+name+"-"+bucket, totalLen(chunks) > 8)
@@ -261,7 +334,7 @@ func caseReadFully(r *vk.Run, chunks [][]byte, finalEOF bool, bucket string) {
 	if pv == nil && err == nil {
 		ok = vk.Hex(msg)
 	}
-	r.Case(fmt.Sprintf("CStFully %s %s %s %d", chunksTerm(chunks), vk.Bool(finalEOF), resTerm(pv != nil, err, ok), alloc),
+	r.Case(fmt.Sprintf("CStFully %s %s %s %d %d", chunksTerm(chunks), vk.Bool(finalEOF), resTerm(pv != nil, err, ok), alloc, stackErrCost(err)),
 		map[string]any{"kind": "stfully", "chunks": chunksHex(chunks), "final": finalEOF, "panic": pv != nil, "err": errStr(err), "alloc": alloc},
 		"stream/fully-"+bucket, totalLen(chunks) > 8)
 }
@@ -390,6 +463,36 @@ func genStream(r *vk.Run, budget int) {
 	for k := 0; k < budget/16; k++ {
 		s := vk.SmallBiased(r.Rng, r.Rng.Intn(40))
 		caseStream(r, r.Rng.Intn(5), stCut(r.Rng, s, 3, nil), r.Rng.Intn(4) != 0, bss[r.Rng.Intn(len(bss))], 12, "random")
+	}
+	// directed: exec-all streams on which several stack-capturing errors are built, one of them
+	// dropped by the receiver (ZAdd body whose length has the top bit set), found by the thorough tier
+	hx := func(xs ...string) [][]byte {
+		var out [][]byte
+		for _, x := range xs {
+			b, _ := hex.DecodeString(x)
+			out = append(out, b)
+		}
+		return out
+	}
+	caseStream(r, stExecAll, hx("000000000000000102ffffffffffffffff93"), true, 2, 12, "directed")
+	caseStream(r, stExecAll, hx("000000000000000102", "00000000000000022ff1", "000000000000000102", "80000000000000009a"), true, 8, 12, "directed")
+	caseStream(r, stExecAll, hx("000000000000000102fffffffffffffff8e6"), true, 8, 12, "directed")
+	caseStream(r, stExecAll, hx("000000000000000102", "ffffffffffffffffae09d690f8", "000000000000000101", "0000000000000004f6a16aaa", "000000000000000ac4081f0bfa5adf01f4e0"), true, 9, 12, "directed")
+	caseStream(r, stExecAll, hx("000000000000000102", "fffffffffffffff8825ce4b906"), false, 2, 12, "directed")
+	// twelve ZAdd operations in a row, each with a dropped error / each with an unparsable body
+	{
+		var many, bad []byte
+		for k := 0; k < 6; k++ {
+			many = append(many, u64b(1)...)
+			many = append(many, 2)
+			many = append(many, u64b(1<<63+uint64(k))...)
+			bad = append(bad, u64b(1)...)
+			bad = append(bad, 2)
+			bad = append(bad, u64b(2)...)
+			bad = append(bad, 0x2f, 0xf1)
+		}
+		caseStream(r, stExecAll, [][]byte{many}, true, 8, 12, "directed")
+		caseStream(r, stExecAll, [][]byte{bad}, true, 8, 12, "directed")
 	}
 	// the witnesses of coq/Wire/StreamTotal.v
 	caseStream(r, stKv, [][]byte{u64b(1 << 63)}, true, 8, 12, "witness")
